@@ -39,6 +39,7 @@ proof fn lemma_rep_prefix(s: Seq<Seq<char>>, o0: Seq<Operation>, o1: Seq<Operati
 //@unit src/whitespace.rs fn operations
 //@rule R4
 //@rule R15_collect
+#[verifier::loop_isolation(false)]
 pub fn operations(from: &str, to: &str, use_graphemes: bool) -> (res: VtResult<Vec<Operation>>)
     requires
         ops_pre(chars_of(from, use_graphemes), chars_of(to, use_graphemes)),
@@ -170,6 +171,7 @@ fn vt_min(a: usize, b: usize) -> (r: usize) ensures r == if a <= b { a } else { 
 //@rule R15_collect
 //@rule R2
 //@rule R7
+#[verifier::loop_isolation(false)]
 pub fn repair(s: &str, operations: &[Operation], use_graphemes: bool) -> (res: VtResult<String>)
     ensures
         ({ let f = chars_of(s, use_graphemes);
